@@ -183,6 +183,31 @@ pub open spec fn optional_paren_doc(body: DocV, indent: int, d0: Seq<char>, d1: 
     group(cat(nest(indent, cat(flat_alt(cat(txt(d0), DocV::Hardline), DocV::Nil), body)), flat_alt(cat(DocV::Hardline, txt(d1)), DocV::Nil)))
 }
 
+/// W: optional delimiters that are optional punctuation add no word, in either layout
+pub proof fn lemma_optional_paren_words(d: DocV, indent: int, d0: Seq<char>, d1: Seq<char>)
+    requires word_of(d0).len() == 0, word_of(d1).len() == 0, alt_ok(d), words(d, true) == words(d, false),
+    ensures
+        alt_ok(optional_paren_doc(d, indent, d0, d1)),
+        words(optional_paren_doc(d, indent, d0, d1), false) == words(d, false),
+        words(optional_paren_doc(d, indent, d0, d1), true) == words(d, false),
+{
+    reveal_with_fuel(words, 8); reveal_with_fuel(alt_ok, 8);
+    let e = Seq::<Seq<char>>::empty();
+    let w = words(d, false);
+    assert(word_of(d0) =~= e); assert(word_of(d1) =~= e);
+    assert(e + e =~= e);
+    assert((e + w) + e =~= w);
+}
+/// the same, for every body at once (for call sites that only know `exists|d| r == optional_paren_doc(d, ..)`)
+pub proof fn lemma_optional_paren_words_all(indent: int, d0: Seq<char>, d1: Seq<char>)
+    requires word_of(d0).len() == 0, word_of(d1).len() == 0,
+    ensures forall|d: DocV, ws: Seq<Seq<char>>| w_ok(d, ws) ==> #[trigger] w_ok(optional_paren_doc(d, indent, d0, d1), ws),
+{
+    assert forall|d: DocV, ws: Seq<Seq<char>>| w_ok(d, ws) implies #[trigger] w_ok(optional_paren_doc(d, indent, d0, d1), ws) by {
+        lemma_optional_paren_words(d, indent, d0, d1);
+    }
+}
+
 // ===== sequences of documents (what `concat`, `Vec<ArenaDoc>` accumulators build) =====
 pub open spec fn tr_docs(s: Seq<DocV>, flat: bool) -> Tr decreases s.len() {
     if s.len() == 0 { tr_id() } else { tr_seq(tr_docs(s.drop_last(), flat), tr(s.last(), flat)) }
